@@ -112,12 +112,14 @@ def structure_json(rng, case, relabel=None):
     return sj
 
 
-def unwrap_some(rng, case, atol, matched=None):
+def unwrap_some(rng, case, atol, matched=None, far=False):
     """give the periodic structure partly UNWRAPPED coordinates: add 1-2 bystander atoms (noble gases) lying slightly
     outside the cell, and (matched=True / at random) move atoms of the planted copies that sit close to a face to the
     equivalent position just outside the opposite face.  Every displacement out of the cell is <= 0.4 A and below 80 % of
     the search length (pattern diameter + 2 atol): a legitimate description of the same crystal that the library
-    handles.  Returns the number of atoms now outside [0, L)."""
+    handles.  far=True additionally (i) gives whole planted copies shifted by ONE lattice vector (the same crystal; a
+    copy given that way may or may not be found - C02's matter - the C04 oracle speaks about the matches found) and
+    (ii) puts bystanders up to 1.6 cell widths outside.  Returns the number of atoms now outside [0, L)."""
     import numpy as np
     cellf = np.array(case["cell"], dtype=float)
     cinv = np.linalg.inv(cellf)
@@ -147,11 +149,19 @@ def unwrap_some(rng, case, atol, matched=None):
             if moved:
                 pos[i] = f.dot(cellf)
                 n_out += 1
+    if far:
+        for grp in case["planted"]:
+            if rng.random() < 0.25:
+                shift = np.zeros(3)
+                shift[rng.randrange(3)] = rng.choice([1.0, -1.0])
+                for i in grp:
+                    pos[i] = pos[i] + shift.dot(cellf)
+                    n_out += 1
     for _ in range(rng.randint(1, 2)):
         for attempt in range(60):
             f = np.array([rng.random() for _ in range(3)])
             for k in rng.sample(range(3), rng.choice([1, 1, 2])):
-                d = rng.uniform(0.02, maxd) / w[k]
+                d = (rng.uniform(0.4, 1.6 * w[k]) if (far and rng.random() < 0.4) else rng.uniform(0.02, maxd)) / w[k]
                 f[k] = -d if rng.random() < 0.5 else 1.0 + d
             v = f.dot(cellf)
             ok = True
@@ -262,7 +272,8 @@ def random_case(rng, mode=None, shared=None, f=None, replace_all=None, pname=Non
                                     atol=atol, decoys=rng.random() < 0.5, boundary=boundary)
     else:
         boundary = case["info"].get("boundary")
-    n_out = unwrap_some(rng, case, atol) if (unwrapped if unwrapped is not None else rng.random() < 0.4) else 0
+    n_out = unwrap_some(rng, case, atol, far=(expect is None and rng.random() < 0.5)) \
+        if (unwrapped if unwrapped is not None else rng.random() < 0.4) else 0
     pe, pp = case["pattern"]["elems"], case["pattern"]["pos"]
     relems, rpos, rinfo = make_replacement(rng, pe, pp, mode=mode, shared=shared, struct_elems=sorted(set(case["elems"])))
     sj = structure_json(rng, case)
@@ -273,6 +284,12 @@ def random_case(rng, mode=None, shared=None, f=None, replace_all=None, pname=Non
     if not relems:
         rj, rj_src, ekind = empty_replacement(rng, pj)
         rinfo = dict(rinfo, empty_kind=ekind)
+    if rng.random() < 0.15:
+        # patterns that carry a cell of their own (as loaded from a CIF); it must play no role
+        for j, edge in ((pj, rng.randint(8, 20)), (rj, rng.randint(8, 20))):
+            if j["atoms"]:
+                j["cell"] = [[core.q(edge if a == b else 0) for b in range(3)] for a in range(3)]
+        rinfo = dict(rinfo, pattern_cells=True)
     xinfo = add_extra_columns(rng, sj, rj) if (extras if extras is not None else rng.random() < 0.3) else ""
     if xinfo:
         rinfo = dict(rinfo, extras=xinfo)
@@ -292,7 +309,19 @@ def random_case(rng, mode=None, shared=None, f=None, replace_all=None, pname=Non
     return {"op": "replace-c04", "sj": sj, "pj": pj, "rj": rj, "atol": atol, "f": f, "replace_all": bool(replace_all),
             "ignore": False, "seed": rng.randrange(1 << 30), "hints": [None if h is None else int(h) for h in hints],
             "return_num": bool(return_num), "rj_src": rj_src,
-            "via_copy": bool(rng.random() < 0.3 if via_copy is None else via_copy), "info": info, **({"expect": expect} if expect else {})}
+            "via_copy": bool(rng.random() < 0.3 if via_copy is None else via_copy), "np_args": bool(rng.random() < 0.25), "info": info, **({"expect": expect} if expect else {})}
+
+
+def atomless_case(rng):
+    """a periodic structure WITHOUT atoms (just a cell): nothing can be found, nothing may change, nothing may raise"""
+    pname = rng.choice(list(fl.PATTERNS))
+    pat = fl.pattern_json(pname)
+    ck = rng.choice(["ortho", "tri+", "tri-", "rot"])
+    cell = [[float(v) for v in row] for row in fl.make_cell(rng, ck, 8.0)]
+    case = {"elems": [], "pos": [], "cell": cell, "planted": [],
+            "pattern": {"elems": pat["elems"], "pos": [[float(x) for x in q] for q in pat["pos"]], "name": pname},
+            "info": {"cell": ck, "pattern": pname, "copies": 0, "decoys": [], "boundary": None, "atomless": True}}
+    return random_case(rng, pname=pname, case=case, unwrapped=False, extras=False, spare=False, hints=(None, None, None))
 
 
 def distorted_case(rng, regime=None, **kw):
